@@ -133,3 +133,21 @@ def register(claim) -> None:
         "the tag, and that untrusted scope text cannot reach the %-format position unescaped when arguments are passed. Obligations C19.1-C19.6.",
         "What logging handlers do with the record is not analysed; uuid4 freshness trusted.",
     )
+    claim(
+        "C14",
+        "sibling cross-check (sync/async): counter-bound normal form, handler classification, annotation-directed exhaustiveness of the delay match, per-arm path counting of pauses",
+        "Decides the loop bound (constant init, unit step exactly once per retry, guard normal form => limit+1 calls), that the non-retry branch "
+        "raises the bound exception object itself, that only `except Exception` can continue the loop (cancellation / BaseException never retried), "
+        "the isinstance-over-catching test, exhaustiveness of the delay dispatch for the declared union incl. int->float promotion, exactly one "
+        "pause per non-None arm and the (attempt, exception) arguments of the delay function. Obligations C14.1-C14.7.",
+        "Trusts sleep primitives; user delay functions / wrapped functions may raise anything.",
+    )
+    claim(
+        "C15",
+        "lock-region containment of the window bookkeeping + linear-form normalisation of the wait and purge expressions + scenario-pruned ordering queries",
+        "NARROW CLAIM: the numeric rate bound over all arrival patterns in exact time is a statement about clock values and is not decided. "
+        "Decided are necessary structural conditions, each of which breaks the bound or the no-needless-delay clause when violated: bookkeeping only "
+        "under the lock, the call outside it, the wait = entries[0] + period - now exactly when the window is full, a fresh start stamp after the "
+        "wait and before the call, purge condition entries[0] + period <= now before the fullness test, period normalisation. Obligations C15.1-C15.5.",
+        "asyncio.Lock FIFO fairness and asyncio.sleep trusted; decides these clauses, not the timing behaviour.",
+    )
